@@ -110,9 +110,9 @@ type pathState struct {
 
 type pathSave struct {
 	npc, nvars, nchoices, nregions, nobs, forks, ndec int
-	imprecise                                     bool
-	locksHeld                                     int
-	nodeSeq, mapSeq                               int
+	imprecise                                         bool
+	locksHeld                                         int
+	nodeSeq, mapSeq                                   int
 }
 
 func (e *Engine) savePS() pathSave {
